@@ -49,16 +49,17 @@ def run(chk, orch):
             opts = {"data_type": chk.rng.choice(["nanopore", "pacbio_ccs"]), "annotated": True,
                     "transcript_quant": chk.rng.choice(["unique_only", "with_ambiguous", "all"]),
                     "gene_quant": chk.rng.choice(["unique_only", "with_ambiguous", "all"])}
+            # the number of files (replicates) is part of the input: it is fixed per workload, only the ORDER of the files
+            # varies (IsoQuant treats several files of one experiment as technical replicates when building models)
+            spec["n_bams"] = chk.rng.choice([1, 1, 2, 3])
             for v in range(4 if quick else 6):
                 s2 = dict(spec)
                 o = dict(opts)
                 if v > 0:
                     s2["chr_order"] = chk.rng.choice([1, 2, 3])
                     s2["tie_perm"] = chk.rng.randrange(1, 50)
-                    if chk.rng.random() < 0.5:
-                        s2["n_bams"] = chk.rng.choice([2, 3])
+                    if spec["n_bams"] > 1:
                         o["bam_order"] = chk.rng.randrange(1, 9)
-                        o["read_group"] = None
                 cell = common.random_cell(chk.rng) if v > 0 else dict(common.GOLDEN_CELL)
                 cell["hashseed"] = 0
                 a = common.job_args(s2, o, cell, oracles=["counts"])
@@ -123,8 +124,6 @@ def run(chk, orch):
                 bad = ["<exit %s %s>" % (r["exit"], r.get("failure_site"))]
             else:
                 for name, dg in g["sorted_digests"].items():
-                    if name.endswith(("_grouped_counts.tsv", "_grouped_counts_linear.tsv", "_grouped_tpm.tsv")):
-                        continue    # several files => automatic file_name grouping, not present in the reference
                     if r["sorted_digests"].get(name) != dg:
                         bad.append(name)
             if bad:
